@@ -492,6 +492,22 @@ Proof.
   split; assumption.
 Qed.
 
+(* ColorBounded.color_valid_statement for every odd size: validity (ColorValidAll) and the shapes *)
+Theorem color_valid_all_full : color_valid_statement.
+Proof.
+  intros size Hs Ho. split; [now apply color_valid_all|].
+  assert (Hm : 1 <= size / 2) by lia. assert (Hsize : size = 2 * (size / 2) + 1) by lia.
+  rewrite (c6_nkd size (size / 2) Hm Hsize). unfold rc_shape.
+  pose proof (color_stabilizers_length size (size / 2) Hm Hsize) as HL.
+  pose proof (c6_stabs_rowlen size (size / 2) Hm Hsize) as HR.
+  pose proof (c6_n_eq size (size / 2) Hm Hsize) as HN.
+  split; [lia|]. split; [|rewrite c6_code_eq; cbn [lxs lzs length]; repeat split; try reflexivity; nia].
+  intros r Hr. replace (Z.to_nat (2 * Z.of_nat (c6_n size))) with (c6_n size + c6_n size)%nat by lia.
+  apply in_app_iff in Hr. destruct Hr as [Hr|Hr].
+  - unfold rowlen in HR. rewrite Forall_forall in HR. now apply HR.
+  - rewrite c6_code_eq in Hr. cbn [lxs lzs app] in Hr. destruct Hr as [<-|[<-|[]]]; apply c6_sop_length.
+Qed.
+
 (* ================================================================== *)
 (** * Part D — weights of the logical operators, upper bound on the distance *)
 (* ================================================================== *)
